@@ -271,7 +271,9 @@ def run(ctx):
     for d in ds.get("pure", []):
         types.add(d["type"].split("(")[0])
         if "predict_err" in d:
-            ds_bad.append({"why": "predict failed", "dataset": d})
+            # an error of the whole data set is legitimate iff the direct call fails for some entry as well
+            if all(isinstance(v, (int, float)) for v in d["direct"]):
+                ds_bad.append({"why": "predict failed although the direct library call succeeds for every entry", "dataset": d})
             continue
         ds_n += 1
         p, q = d["predict"], d["direct"]
